@@ -450,7 +450,7 @@ func runCheck(id, tier string, seed int, propose, verbose bool) int {
 		level = "other"
 		cov["explanation"] = "no obligation discharged"
 	}
-	if tier == "thorough" && os.Getenv("GVC_REPO") == "" {
+	if tier == "thorough" && os.Getenv("GVC_REPO") == "" && os.Getenv("GVC_OVERLAY") == "" {
 		// deeper exploration of the same property: (a) solver agreement and long timeouts (above);
 		// (b) every differential harness registered for a function of this property is run on the
 		// unchanged tree -- a boundary-value search on the REAL code for a violation of the same
@@ -489,6 +489,11 @@ func runCheck(id, tier string, seed int, propose, verbose bool) int {
 		p2, _ := filepath.Glob(filepath.Join(VerifDir, "seeded", id+"-*", "patch.diff"))
 		ps := append(p1, p2...)
 		sort.Strings(ps)
+		if selftestGoCache == "" && len(ps) > 0 {
+			c, drop := scratchGoCache()
+			selftestGoCache = c
+			defer drop()
+		}
 		for _, pth := range ps {
 			res, detail := selftestOne(id, pth)
 			canaries = append(canaries, map[string]any{"patch": strings.TrimPrefix(pth, VerifDir+"/"), "result": res, "obligations": detail})
